@@ -14,6 +14,9 @@ pub enum Src {
     Corner(u8),
     /// explicit PD code
     Pd(Vec<[usize; 4]>),
+    /// a table link with the k-th crossing between two different components smoothed along the orientation and kept in the
+    /// crossing list as a resolved crossing (a 2-component link becomes a knot diagram with one smoothed crossing)
+    Smoothed(String, u8),
 }
 
 #[derive(Clone, Debug, Serialize, Deserialize, PartialEq)]
@@ -42,6 +45,14 @@ pub fn build_src(s: &Src) -> Result<Dg, String> {
             braid_closure(n, &w).ok_or_else(|| "bad braid".to_string()) }
         Src::Torus(p, q) => { let (p, q) = ((*p as usize).clamp(2, 7), (*q as usize).clamp(1, 9)); braid_closure(p, &torus_word(p, q)).ok_or_else(|| "bad torus".to_string()) }
         Src::Pd(pd) => Ok(Dg::from_pd(pd)),
+        Src::Smoothed(name, k) => {
+            let d = pool_get(name).ok_or_else(|| format!("no pool entry {name}"))?;
+            let o = d.orient(0)?;
+            let strand_of = |i: usize, under: bool| o.strands.iter().position(|s| s.pass.iter().any(|p| p.0 == i && ((p.1 % 2 == 0) == under)));
+            let inter: Vec<usize> = (0..d.n()).filter(|i| strand_of(*i, true) != strand_of(*i, false)).collect();
+            if inter.is_empty() { return Err("no crossing between different components".into()) }
+            d.smooth_oriented(inter[*k as usize % inter.len()])
+        }
         Src::Corner(k) => Ok(match k % 9 {
             0 => Dg::new(vec![]),
             1 => Dg::new(vec![(CT::H, [0, 1, 1, 0])]),
